@@ -58,3 +58,584 @@ Definition epath (r0 : row) (p : list key) : list key :=
 
 Definition pairwise_diverge (q : list (list key)) : Prop := ForallOrdPairs diverge q.
 
+
+(* ================= Part 1: unfolding lemmas, shapes ================= *)
+
+Lemma same_shape_cons k v r k' v' r' :
+  same_shape (Nd ((k, v) :: r)) (Nd ((k', v') :: r')) =
+  N.eqb k k' && same_shape v v' && same_shape (Nd r) (Nd r').
+Proof. reflexivity. Qed.
+
+Lemma small_cons k v r : small (Nd ((k, v) :: r)) = N.ltb k 50 && small v && small (Nd r).
+Proof. reflexivity. Qed.
+
+Lemma kind_eqb_refl x : kind_eqb x x = true.
+Proof. destruct x; cbn; auto. apply N.eqb_refl. Qed.
+
+Lemma same_shape_refl (r : row) : same_shape r r = true.
+Proof.
+  induction r as [x|c IHc] using tree_ind'.
+  - apply kind_eqb_refl.
+  - induction c as [|[k v] c IH]; [reflexivity|].
+    inversion IHc as [|kv l Hv Hr]; subst. cbn [snd] in Hv.
+    rewrite same_shape_cons, N.eqb_refl, Hv, IH by exact Hr. reflexivity.
+Qed.
+
+Lemma same_shape_keys (c0 : list (key * row)) : forall dc,
+  same_shape (Nd c0) (Nd dc) = true -> akeys dc = akeys c0.
+Proof.
+  induction c0 as [|[k v] c0 IH]; intros dc Hsh.
+  - destruct dc; [reflexivity|discriminate].
+  - destruct dc as [|[k' v'] dc]; [discriminate|].
+    rewrite same_shape_cons in Hsh.
+    apply andb_true_iff in Hsh as [Hsh Hr]. apply andb_true_iff in Hsh as [Hk Hv].
+    apply N.eqb_eq in Hk. subst k'. cbn. f_equal. apply IH. exact Hr.
+Qed.
+
+Lemma small_In (c : list (key * row)) k v :
+  small (Nd c) = true -> In (k, v) c -> (k < 50)%N /\ small v = true.
+Proof.
+  induction c as [|[k0 v0] c IH]; intros Hs Hin; [contradiction|].
+  rewrite small_cons in Hs.
+  apply andb_true_iff in Hs as [Hs Hr]. apply andb_true_iff in Hs as [Hk Hv].
+  destruct Hin as [Heq|Hin].
+  - injection Heq as <- <-. split; [now apply N.ltb_lt|exact Hv].
+  - apply IH; assumption.
+Qed.
+
+(* the key under which the entry (k, v) of a row is stored in the timeseries *)
+Definition ekey (k : key) (v : row) : key :=
+  match v with Lf (LQ _ u) => unit_key k u | _ => k end.
+
+Definition ekeys (c : list (key * row)) : list key := map (fun kv => ekey (fst kv) (snd kv)) c.
+
+Lemma ekey_kind k x0 x : kind_eqb x0 x = true -> ekey k (Lf x) = ekey k (Lf x0).
+Proof.
+  destruct x0, x; cbn; intros H; try discriminate; try reflexivity.
+  apply N.eqb_eq in H. now subst.
+Qed.
+
+Lemma ekey_inj k v k' v' : (k < 50)%N -> (k' < 50)%N -> small v = true -> small v' = true ->
+  ekey k v = ekey k' v' -> k = k'.
+Proof.
+  intros Hk Hk' Hs Hs' He.
+  assert (Hform : forall j w, small w = true ->
+            ekey j w = j \/ exists u, (u < 50)%N /\ ekey j w = (1000 + 50 * j + u)%N).
+  { intros j w Hw. destruct w as [x|c]; [|now left].
+    destruct x; try (now left). right. exists u. split; [|reflexivity].
+    cbn in Hw. now apply N.ltb_lt. }
+  destruct (Hform k v Hs) as [H1|(u & Hu & H1)];
+    destruct (Hform k' v' Hs') as [H2|(u' & Hu' & H2)]; rewrite H1, H2 in He; lia.
+Qed.
+
+Lemma ekeys_nodup (c : list (key * row)) :
+  small (Nd c) = true -> NoDup (akeys c) -> NoDup (ekeys c).
+Proof.
+  induction c as [|[k v] c IH]; intros Hs Hnd; cbn.
+  - constructor.
+  - pose proof Hs as Hs0. rewrite small_cons in Hs.
+    apply andb_true_iff in Hs as [Hs Hr]. apply andb_true_iff in Hs as [Hk Hv].
+    apply N.ltb_lt in Hk.
+    inversion Hnd as [|k1 l1 Hnin Hnd']; subst.
+    constructor; [|apply IH; assumption].
+    intros Hin. apply in_map_iff in Hin as ([k' v'] & He & Hin'). cbn [fst snd] in He.
+    destruct (small_In c k' v' Hr Hin') as [Hk' Hv'].
+    assert (Hkk : k' = k) by exact (ekey_inj k' v' k v Hk' Hk Hv' Hv He). subst k'.
+    apply Hnin. change k with (fst (k, v')). now apply in_map.
+Qed.
+
+(* ================= Part 2: alist helpers ================= *)
+
+Lemma alookup_mid {V} k (v : V) d m : ~ In k (akeys d) -> alookup k (d ++ (k, v) :: m) = Some v.
+Proof.
+  intros H. rewrite alookup_app_none by (now apply alookup_None_notin).
+  cbn. now rewrite N.eqb_refl.
+Qed.
+
+Lemma aset_mid {V} k (v v' : V) d m : ~ In k (akeys d) ->
+  aset k v' (d ++ (k, v) :: m) = d ++ (k, v') :: m.
+Proof.
+  induction d as [|[k0 v0] d IH]; cbn; intros H.
+  - now rewrite N.eqb_refl.
+  - destruct (N.eqb k0 k) eqn:E.
+    + apply N.eqb_eq in E. subst. exfalso. apply H. now left.
+    + f_equal. apply IH. intros Hin. apply H. now right.
+Qed.
+
+Lemma nodup_mid_notin (d : list key) k m : NoDup (d ++ k :: m) -> ~ In k d.
+Proof.
+  intros Hnd Hin. apply NoDup_remove_2 in Hnd. apply Hnd. apply in_or_app. now left.
+Qed.
+
+(* ================= Part 3: vied as a named loop, and its closed form ================= *)
+
+Fixpoint vgo (dc : list (key * row)) (tc : list (key * ets)) : res ets :=
+  match dc with
+  | [] => Ok (Nd tc)
+  | (k, v) :: r =>
+    match v with
+    | Nd _ =>
+      let cur := match alookup k tc with Some s => s | None => Nd [] end in
+      match vied v cur with
+      | Ok s' => vgo r (aset k s' tc)
+      | Err e => Err e
+      end
+    | Lf x =>
+      let k' := match x with LQ _ u => unit_key k u | _ => k end in
+      let y := match x with LQ m _ => LZ m | _ => x end in
+      match alookup k' tc with
+      | None => vgo r (aset k' (Lf [y]) tc)
+      | Some (Lf col) => vgo r (aset k' (Lf (col ++ [y])) tc)
+      | Some (Nd _) => Err EOther
+      end
+    end
+  end.
+
+Lemma vied_Nd dc tc : vied (Nd dc) (Nd tc) = vgo dc tc.
+Proof. reflexivity. Qed.
+
+Lemma vgo_leaf k x r tc :
+  vgo ((k, Lf x) :: r) tc =
+  match alookup (ekey k (Lf x)) tc with
+  | None => vgo r (aset (ekey k (Lf x)) (Lf [cell x]) tc)
+  | Some (Lf col) => vgo r (aset (ekey k (Lf x)) (Lf (col ++ [cell x])) tc)
+  | Some (Nd _) => Err EOther
+  end.
+Proof. destruct x; reflexivity. Qed.
+
+Lemma vgo_node k c r tc :
+  vgo ((k, Nd c) :: r) tc =
+  match vied (Nd c) (adefault k tc) with
+  | Ok s' => vgo r (aset k s' tc)
+  | Err e => Err e
+  end.
+Proof. reflexivity. Qed.
+
+(* closed form of the embedded timeseries of a rectangular history: the shape of r0 with
+   quantity keys renamed, and under every leaf the column of that leaf's path *)
+Fixpoint espec (pre : list key) (r0 : row) (data : list (Z * row)) : ets :=
+  match r0 with
+  | Lf _ => Nd []
+  | Nd c =>
+    Nd (map (fun kv => (ekey (fst kv) (snd kv),
+                        match snd kv with
+                        | Lf _ => Lf (column (pre ++ [fst kv]) data)
+                        | Nd _ => espec (pre ++ [fst kv]) (snd kv) data
+                        end)) c)
+  end.
+
+Definition eent (pre : list key) (data : list (Z * row)) (kv : key * row) : key * ets :=
+  (ekey (fst kv) (snd kv),
+   match snd kv with
+   | Lf _ => Lf (column (pre ++ [fst kv]) data)
+   | Nd _ => espec (pre ++ [fst kv]) (snd kv) data
+   end).
+
+Lemma espec_Nd pre c data : espec pre (Nd c) data = Nd (map (eent pre data) c).
+Proof. reflexivity. Qed.
+
+Lemma eent_leaf pre data k x : eent pre data (k, Lf x) = (ekey k (Lf x), Lf (column (pre ++ [k]) data)).
+Proof. reflexivity. Qed.
+
+Lemma eent_node pre data k c : eent pre data (k, Nd c) = (k, espec (pre ++ [k]) (Nd c) data).
+Proof. reflexivity. Qed.
+
+Lemma akeys_eent pre data c : akeys (map (eent pre data) c) = ekeys c.
+Proof. unfold akeys, ekeys. rewrite map_map. reflexivity. Qed.
+
+Lemma column_snoc p data t r : column p (data ++ [(t, r)]) = column p data ++ [leaf_at r p].
+Proof. unfold column. rewrite map_app. reflexivity. Qed.
+
+Lemma leaf_at_leaf (r : row) p x : get_in r p = Ok (Some (Lf x)) -> leaf_at r p = cell x.
+Proof. intros H. unfold leaf_at. now rewrite H. Qed.
+
+(* one vied step on a row of the right shape: both from a populated accumulator and from
+   the initial empty one *)
+Definition vied_ok (r0 : row) : Prop :=
+  wf r0 -> small r0 = true -> is_nd r0 = true ->
+  forall pre sub (r : row) t data, same_shape r0 sub = true -> get_in r pre = Ok (Some sub) ->
+    vied sub (espec pre r0 data) = Ok (espec pre r0 (data ++ [(t, r)])) /\
+    vied sub (Nd []) = Ok (espec pre r0 [(t, r)]).
+
+Lemma akeys_snoc {V} (d : alist V) k v : akeys (d ++ [(k, v)]) = akeys d ++ [k].
+Proof. unfold akeys. now rewrite map_app. Qed.
+
+Lemma vgo_B pre (r : row) t data : forall l0 l done,
+  Forall (fun kv => vied_ok (snd kv)) l0 ->
+  Forall (fun kv => wf (snd kv)) l0 ->
+  small (Nd l0) = true ->
+  same_shape (Nd l0) (Nd l) = true ->
+  Forall (fun kv => get_in r (pre ++ [fst kv]) = Ok (Some (snd kv))) l ->
+  NoDup (akeys done ++ ekeys l0) ->
+  vgo l (done ++ map (eent pre data) l0) =
+  Ok (Nd (done ++ map (eent pre (data ++ [(t, r)])) l0)).
+Proof.
+  induction l0 as [|[k v0] l0 IH]; intros l done HP Hwf Hs Hsh Hg Hnd.
+  - destruct l; [|discriminate]. reflexivity.
+  - destruct l as [|[k' v] l]; [discriminate|].
+    rewrite same_shape_cons in Hsh.
+    apply andb_true_iff in Hsh as [Hsh Hshl]. apply andb_true_iff in Hsh as [Hk Hshv].
+    apply N.eqb_eq in Hk. subst k'.
+    pose proof Hs as Hs0. rewrite small_cons in Hs.
+    apply andb_true_iff in Hs as [Hs Hsl]. apply andb_true_iff in Hs as [Hk50 Hsv].
+    inversion HP as [|kv1 l1 HPv HPl]; subst. inversion Hwf as [|kv2 l2 Hwv Hwl]; subst.
+    inversion Hg as [|kv3 l3 Hgv Hgl]; subst. cbn [fst snd] in HPv, Hwv, Hgv.
+    cbn [ekeys map fst snd] in Hnd. fold (ekeys l0) in Hnd.
+    pose proof (nodup_mid_notin _ _ _ Hnd) as Hnin.
+    cbn [map].
+    destruct v0 as [x0|c0].
+    + destruct v as [x|c]; [|discriminate]. cbn in Hshv.
+      rewrite vgo_leaf, !eent_leaf, (ekey_kind k x0 x Hshv).
+      rewrite alookup_mid by exact Hnin. rewrite aset_mid by exact Hnin.
+      rewrite column_snoc, (leaf_at_leaf _ _ _ Hgv).
+      specialize (IH l (done ++ [(ekey k (Lf x0), Lf (column (pre ++ [k]) data ++ [cell x]))])
+                     HPl Hwl Hsl Hshl Hgl).
+      rewrite akeys_snoc, <- !app_assoc in IH. cbn [app] in IH. exact (IH Hnd).
+    + destruct v as [x|c]; [discriminate|].
+      rewrite vgo_node, !eent_node.
+      change (ekey k (Nd c0)) with k in Hnin, Hnd.
+      assert (Hdef : adefault k (done ++ (k, espec (pre ++ [k]) (Nd c0) data) :: map (eent pre data) l0)
+                     = espec (pre ++ [k]) (Nd c0) data).
+      { unfold adefault. now rewrite alookup_mid by exact Hnin. }
+      rewrite Hdef.
+      destruct (HPv Hwv Hsv eq_refl (pre ++ [k]) (Nd c) r t data Hshv Hgv) as [HB _].
+      rewrite HB. rewrite aset_mid by exact Hnin.
+      specialize (IH l (done ++ [(k, espec (pre ++ [k]) (Nd c0) (data ++ [(t, r)]))])
+                     HPl Hwl Hsl Hshl Hgl).
+      rewrite akeys_snoc, <- !app_assoc in IH. cbn [app] in IH. exact (IH Hnd).
+Qed.
+
+Lemma vgo_A pre (r : row) t : forall l0 l done,
+  Forall (fun kv => vied_ok (snd kv)) l0 ->
+  Forall (fun kv => wf (snd kv)) l0 ->
+  small (Nd l0) = true ->
+  same_shape (Nd l0) (Nd l) = true ->
+  Forall (fun kv => get_in r (pre ++ [fst kv]) = Ok (Some (snd kv))) l ->
+  NoDup (akeys done ++ ekeys l0) ->
+  vgo l done = Ok (Nd (done ++ map (eent pre [(t, r)]) l0)).
+Proof.
+  induction l0 as [|[k v0] l0 IH]; intros l done HP Hwf Hs Hsh Hg Hnd.
+  - destruct l; [|discriminate]. cbn. now rewrite app_nil_r.
+  - destruct l as [|[k' v] l]; [discriminate|].
+    rewrite same_shape_cons in Hsh.
+    apply andb_true_iff in Hsh as [Hsh Hshl]. apply andb_true_iff in Hsh as [Hk Hshv].
+    apply N.eqb_eq in Hk. subst k'.
+    pose proof Hs as Hs0. rewrite small_cons in Hs.
+    apply andb_true_iff in Hs as [Hs Hsl]. apply andb_true_iff in Hs as [Hk50 Hsv].
+    inversion HP as [|kv1 l1 HPv HPl]; subst. inversion Hwf as [|kv2 l2 Hwv Hwl]; subst.
+    inversion Hg as [|kv3 l3 Hgv Hgl]; subst. cbn [fst snd] in HPv, Hwv, Hgv.
+    cbn [ekeys map fst snd] in Hnd. fold (ekeys l0) in Hnd.
+    pose proof (nodup_mid_notin _ _ _ Hnd) as Hnin.
+    apply alookup_None_notin in Hnin.
+    cbn [map].
+    destruct v0 as [x0|c0].
+    + destruct v as [x|c]; [|discriminate]. cbn in Hshv.
+      rewrite vgo_leaf, eent_leaf, (ekey_kind k x0 x Hshv), Hnin.
+      rewrite aset_absent by exact Hnin.
+      specialize (IH l (done ++ [(ekey k (Lf x0), Lf [cell x])]) HPl Hwl Hsl Hshl Hgl).
+      rewrite akeys_snoc, <- !app_assoc in IH. cbn [app] in IH. rewrite (IH Hnd).
+      unfold column. cbn [map snd]. now rewrite (leaf_at_leaf _ _ _ Hgv).
+    + destruct v as [x|c]; [discriminate|].
+      rewrite vgo_node, eent_node.
+      change (ekey k (Nd c0)) with k in Hnin, Hnd.
+      assert (Hdef : adefault k done = Nd []) by (unfold adefault; now rewrite Hnin).
+      rewrite Hdef.
+      destruct (HPv Hwv Hsv eq_refl (pre ++ [k]) (Nd c) r t [] Hshv Hgv) as [_ HA].
+      rewrite HA. rewrite aset_absent by exact Hnin.
+      specialize (IH l (done ++ [(k, espec (pre ++ [k]) (Nd c0) [(t, r)])])
+                     HPl Hwl Hsl Hshl Hgl).
+      rewrite akeys_snoc, <- !app_assoc in IH. cbn [app] in IH. exact (IH Hnd).
+Qed.
+
+Lemma vied_ok_all (r0 : row) : vied_ok r0.
+Proof.
+  induction r0 as [x|c0 IHc] using tree_ind'; intros Hwf Hs Hnd; [discriminate|].
+  intros pre sub r t data Hsh Hg.
+  destruct sub as [y|dc]; [discriminate|].
+  inversion Hwf as [|c1 Hndk Hwc]; subst.
+  assert (Hndd : NoDup (akeys dc)) by (rewrite (same_shape_keys _ _ Hsh); exact Hndk).
+  assert (Hgl : Forall (fun kv => get_in r (pre ++ [fst kv]) = Ok (Some (snd kv))) dc).
+  { rewrite Forall_forall. intros [k v] Hin. cbn [fst snd].
+    rewrite get_in_app, Hg. cbn. now rewrite (In_alookup k v dc Hndd Hin). }
+  assert (Hek : NoDup (akeys (@nil (key * ets)) ++ ekeys c0)) by (apply ekeys_nodup; assumption).
+  split.
+  - rewrite !espec_Nd, vied_Nd.
+    exact (vgo_B pre r t data c0 dc [] IHc Hwc Hs Hsh Hgl Hek).
+  - rewrite espec_Nd, vied_Nd.
+    exact (vgo_A pre r t c0 dc [] IHc Hwc Hs Hsh Hgl Hek).
+Qed.
+
+Lemma fold_vied (r0 : row) : wf r0 -> small r0 = true -> is_nd r0 = true ->
+  forall rest d1, Forall (fun tr : Z * row => same_shape r0 (snd tr) = true) rest ->
+  fold_left (fun acc tr => rbind acc (fun ts => vied (snd tr) ts)) rest (Ok (espec [] r0 d1)) =
+  Ok (espec [] r0 (d1 ++ rest)).
+Proof.
+  intros Hwf Hs Hnd. induction rest as [|[t r] rest IH]; intros d1 Hall.
+  - cbn. now rewrite app_nil_r.
+  - inversion Hall as [|tr l Hsh Hrest]; subst. cbn [snd] in Hsh.
+    cbn [fold_left rbind snd].
+    rewrite (proj1 (vied_ok_all r0 Hwf Hs Hnd [] r r t d1 Hsh eq_refl)).
+    rewrite IH by exact Hrest. now rewrite <- app_assoc.
+Qed.
+
+Lemma tfd_spec data r0 : rect data r0 ->
+  timeseries_from_data data = Ok (map fst data, espec [] r0 data).
+Proof.
+  intros (Hwf & Hnd & Hs & rest & t0 & -> & Hall).
+  unfold timeseries_from_data. cbn [fold_left rbind snd].
+  rewrite (proj2 (vied_ok_all r0 Hwf Hs Hnd [] r0 r0 t0 [] (same_shape_refl r0) eq_refl)).
+  rewrite (fold_vied r0 Hwf Hs Hnd rest [(t0, r0)] Hall). reflexivity.
+Qed.
+
+(* ================= Part 4: reading the closed form ================= *)
+
+Lemma epath_single (c : list (key * row)) k x :
+  alookup k c = Some (Lf x) -> epath (Nd c) [k] = [ekey k (Lf x)].
+Proof.
+  intros H. unfold epath. cbn [get_in]. rewrite H. destruct x; reflexivity.
+Qed.
+
+Lemma epath_cons (c : list (key * row)) k v p' : p' <> [] ->
+  alookup k c = Some v -> epath (Nd c) (k :: p') = k :: epath v p'.
+Proof.
+  intros Hne H. unfold epath. cbn [get_in]. rewrite H.
+  destruct (get_in v p') as [[[x|c']|]|e]; try reflexivity.
+  destruct x; try reflexivity.
+  destruct p' as [|h t]; [congruence|]. reflexivity.
+Qed.
+
+Lemma alookup_eent pre data (c : list (key * row)) k v :
+  small (Nd c) = true -> NoDup (akeys c) -> In (k, v) c ->
+  alookup (ekey k v) (map (eent pre data) c) = Some (snd (eent pre data (k, v))).
+Proof.
+  intros Hs Hnd Hin. apply In_alookup.
+  - rewrite akeys_eent. now apply ekeys_nodup.
+  - change (ekey k v, snd (eent pre data (k, v))) with (eent pre data (k, v)). now apply in_map.
+Qed.
+
+Lemma espec_get (r0 : row) : wf r0 -> small r0 = true -> is_nd r0 = true ->
+  forall pre data p x, get_in r0 p = Ok (Some (Lf x)) ->
+  get_in (espec pre r0 data) (epath r0 p) = Ok (Some (Lf (column (pre ++ p) data))).
+Proof.
+  induction r0 as [y|c IHc] using tree_ind'; intros Hwf Hs Hnd; [discriminate|].
+  intros pre data p x Hg.
+  inversion Hwf as [|c1 Hndk Hwc]; subst.
+  destruct p as [|k p']; [discriminate|].
+  cbn [get_in] in Hg. destruct (alookup k c) as [v|] eqn:El; [|discriminate].
+  pose proof (alookup_In _ _ _ El) as Hin.
+  pose proof (alookup_eent pre data c k v Hs Hndk Hin) as Hlk.
+  rewrite espec_Nd.
+  destruct p' as [|h t].
+  - cbn in Hg. injection Hg as ->.
+    rewrite (epath_single c k x El). cbn [get_in]. rewrite Hlk, eent_leaf. reflexivity.
+  - rewrite (epath_cons c k v (h :: t)) by (exact El || discriminate).
+    destruct v as [z|c']; [discriminate|].
+    change (ekey k (Nd c')) with k in Hlk. cbn [get_in]. rewrite Hlk, eent_node. cbn [snd].
+    rewrite Forall_forall in IHc, Hwc.
+    destruct (small_In c k (Nd c') Hs Hin) as [_ Hsv].
+    pose proof (IHc (k, Nd c') Hin (Hwc (k, Nd c') Hin) Hsv eq_refl (pre ++ [k]) data (h :: t) x Hg) as Hrec.
+    cbn [snd] in Hrec. rewrite Hrec. now rewrite <- app_assoc.
+Qed.
+
+Lemma espec_wf (r0 : row) : wf r0 -> small r0 = true -> forall pre data, wf (espec pre r0 data).
+Proof.
+  induction r0 as [y|c IHc] using tree_ind'; intros Hwf Hs pre data.
+  - cbn. constructor; constructor.
+  - inversion Hwf as [|c1 Hndk Hwc]; subst. rewrite espec_Nd. constructor.
+    + rewrite akeys_eent. now apply ekeys_nodup.
+    + rewrite Forall_forall in *. intros kv Hin.
+      apply in_map_iff in Hin as ([k v] & <- & Hin).
+      destruct v as [z|c'].
+      * rewrite eent_leaf. constructor.
+      * rewrite eent_node. cbn [snd].
+        destruct (small_In c k (Nd c') Hs Hin) as [_ Hsv].
+        exact (IHc (k, Nd c') Hin (Hwc (k, Nd c') Hin) Hsv (pre ++ [k]) data).
+Qed.
+
+(* ================= Part 5: the embedded / path timeseries theorems ================= *)
+
+Theorem embedded_aligned data r0 times ts : rect data r0 ->
+  timeseries_from_data data = Ok (times, ts) ->
+  times = map fst data /\
+  forall p x, get_in r0 p = Ok (Some (Lf x)) ->
+    get_in ts (epath r0 p) = Ok (Some (Lf (column p data))) /\ length (column p data) = length times.
+Proof.
+  intros Hrect Ht. rewrite (tfd_spec _ _ Hrect) in Ht. injection Ht as <- <-.
+  split; [reflexivity|]. intros p x Hg. split.
+  - destruct Hrect as (Hwf & Hnd & Hs & _).
+    exact (espec_get r0 Hwf Hs Hnd [] data p x Hg).
+  - unfold column. now rewrite !map_length.
+Qed.
+
+Theorem embedded_total data r0 : rect data r0 -> exists ts, timeseries_from_data data = Ok (map fst data, ts).
+Proof. intros Hrect. eexists. apply (tfd_spec _ _ Hrect). Qed.
+
+Theorem path_ts_aligned data r0 times pts : rect data r0 ->
+  path_timeseries_from_data data = Ok (times, pts) ->
+  forall p x, get_in r0 p = Ok (Some (Lf x)) -> In (epath r0 p, column p data) pts.
+Proof.
+  intros Hrect Ht p x Hg. unfold path_timeseries_from_data in Ht.
+  rewrite (tfd_spec _ _ Hrect) in Ht. cbn [rbind fst snd] in Ht. injection Ht as <- <-.
+  destruct Hrect as (Hwf & Hnd & Hs & _). unfold make_path_dict.
+  apply (dict_to_paths_get (espec [] r0 data) [] (epath r0 p) (column p data)).
+  - now apply espec_wf.
+  - exact (espec_get r0 Hwf Hs Hnd [] data p x Hg).
+Qed.
+
+Theorem cellwise_inverse data p i : (i < length data)%nat ->
+  nth i (column p data) LNone = leaf_at (snd (nth i data (0%Z, Nd []))) p.
+Proof.
+  intros _. unfold column.
+  assert (Hd : leaf_at (snd (0%Z, @Nd lv [])) p = LNone) by (destruct p; reflexivity).
+  rewrite <- Hd at 1.
+  apply (map_nth (fun tr : Z * row => leaf_at (snd tr) p)).
+Qed.
+
+(* ================= Part 6: get_data(query) ================= *)
+
+Lemma path_tricho (p : list key) : forall p',
+  diverge p p' \/ (exists y t, p = p' ++ y :: t) \/ (exists s, p' = p ++ s).
+Proof.
+  induction p as [|x p IH]; intros p'.
+  - right; right. exists p'. reflexivity.
+  - destruct p' as [|y p'].
+    + right; left. exists x, p. reflexivity.
+    + destruct (N.eq_dec x y) as [->|Hne].
+      * destruct (IH p') as [(c & a & b & p1 & q1 & -> & -> & Hab)|[(z & t & ->)|(s & ->)]].
+        -- left. exists (y :: c), a, b, p1, q1. auto.
+        -- right; left. exists z, t. reflexivity.
+        -- right; right. exists s. reflexivity.
+      * left. exists [], x, y, p, p'. auto.
+Qed.
+
+Lemma paths_to_dict_pfold (pl : list (list key * row)) : paths_to_dict pl = pfold (Ok (Nd [])) pl.
+Proof. reflexivity. Qed.
+
+Lemma pfold_nil (acc : res row) : pfold acc [] = acc.
+Proof. reflexivity. Qed.
+
+Lemma pfold_frame (p : list key) : forall pl (acc res : row),
+  Forall (fun pv : list key * row => diverge (fst pv) p) pl ->
+  pfold (Ok acc) pl = Ok res -> get_in res p = get_in acc p.
+Proof.
+  induction pl as [|[p0 v0] pl IH]; intros acc res Hall Hf.
+  - rewrite pfold_nil in Hf. injection Hf as <-. reflexivity.
+  - rewrite pfold_cons in Hf. cbn [rbind fst snd] in Hf.
+    destruct (assoc_path acc p0 v0) as [acc1|e] eqn:Ea; [|rewrite pfold_err in Hf; discriminate].
+    inversion Hall as [|pv l Hd Hrest]; subst. cbn [fst] in Hd.
+    rewrite (IH acc1 res Hrest Hf). exact (assoc_frame _ _ _ _ _ Ea Hd).
+Qed.
+
+Lemma query_pairs_cons (r : row) p q :
+  query_pairs r (p :: q) =
+  rbind (query_pairs r q) (fun l => match get_in r p with
+                                    | Ok (Some v) => Ok ((p, v) :: l)
+                                    | Ok None => Ok l
+                                    | Err e => Err e
+                                    end).
+Proof. reflexivity. Qed.
+
+Lemma query_pairs_in (r : row) : forall q pl, query_pairs r q = Ok pl ->
+  Forall (fun pv => In (fst pv) q /\ get_in r (fst pv) = Ok (Some (snd pv))) pl.
+Proof.
+  induction q as [|p q IH]; intros pl H.
+  - cbn in H. injection H as <-. constructor.
+  - rewrite query_pairs_cons in H.
+    destruct (query_pairs r q) as [l|e]; [|discriminate]. cbn [rbind] in H.
+    specialize (IH l eq_refl).
+    assert (IH' : Forall (fun pv => In (fst pv) (p :: q) /\ get_in r (fst pv) = Ok (Some (snd pv))) l).
+    { eapply Forall_impl; [|exact IH]. intros pv [H1 H2]. split; [now right|exact H2]. }
+    destruct (get_in r p) as [[v|]|e] eqn:E; try discriminate; injection H as <-; auto.
+    constructor; auto. split; [now left|exact E].
+Qed.
+
+Lemma query_get_gen (r : row) : forall q pl (acc res : row),
+  pairwise_diverge q -> Forall (fun p => p <> []) q ->
+  query_pairs r q = Ok pl -> pfold (Ok acc) pl = Ok res ->
+  (forall p, In p q -> get_in acc p = Ok None) ->
+  forall p, In p q -> get_in res p = get_in r p.
+Proof.
+  induction q as [|p0 q IH]; intros pl acc res Hpd Hne Hq Hf Hacc p Hin; [contradiction|].
+  inversion Hpd as [|a l Hd0 Hpd']; subst. inversion Hne as [|a l Hne0 Hne']; subst.
+  rewrite query_pairs_cons in Hq.
+  destruct (query_pairs r q) as [l|e] eqn:Eq; [|discriminate]. cbn [rbind] in Hq.
+  pose proof (query_pairs_in r q l Eq) as Hl.
+  assert (Hdl : Forall (fun pv : list key * row => diverge (fst pv) p0) l).
+  { rewrite Forall_forall in *. intros pv Hpv. destruct (Hl pv Hpv) as [Hpq _].
+    destruct (Hd0 _ Hpq) as (c & x & y & p1 & q1 & E1 & E2 & Hxy).
+    exists c, y, x, q1, p1. repeat split; auto. }
+  destruct (get_in r p0) as [[v0|]|e] eqn:E0; [| |discriminate]; injection Hq as <-.
+  - rewrite pfold_cons in Hf. cbn [rbind fst snd] in Hf.
+    destruct (assoc_path acc p0 v0) as [acc1|e] eqn:Ea; [|rewrite pfold_err in Hf; discriminate].
+    destruct Hin as [<-|Hin].
+    + rewrite (pfold_frame p0 l acc1 res Hdl Hf), E0. exact (get_assoc _ _ _ _ Hne0 Ea).
+    + apply (IH l acc1 res Hpd' Hne' eq_refl Hf); [|exact Hin].
+      intros p' Hp'. rewrite Forall_forall in Hd0.
+      rewrite (assoc_frame _ _ _ _ _ Ea (Hd0 p' Hp')). apply Hacc. now right.
+  - destruct Hin as [<-|Hin].
+    + rewrite (pfold_frame p0 l acc res Hdl Hf), E0. apply Hacc. now left.
+    + apply (IH l acc res Hpd' Hne' eq_refl Hf); [|exact Hin].
+      intros p' Hp'. apply Hacc. now right.
+Qed.
+
+Definition leaves_ok (r : row) (q : list (list key)) (acc : row) : Prop :=
+  forall p' a, get_in acc p' = Ok (Some (Lf a)) ->
+    exists p s, In p q /\ p' = p ++ s /\ get_in r p' = Ok (Some (Lf a)).
+
+Lemma pfold_leaves (r : row) (q : list (list key)) : Forall (fun p => p <> []) q ->
+  forall pl (acc res : row),
+  Forall (fun pv => In (fst pv) q /\ get_in r (fst pv) = Ok (Some (snd pv))) pl ->
+  leaves_ok r q acc -> pfold (Ok acc) pl = Ok res -> leaves_ok r q res.
+Proof.
+  intros Hne. induction pl as [|[p0 v0] pl IH]; intros acc res Hall Hacc Hf.
+  - rewrite pfold_nil in Hf. injection Hf as <-. exact Hacc.
+  - rewrite pfold_cons in Hf. cbn [rbind fst snd] in Hf.
+    destruct (assoc_path acc p0 v0) as [acc1|e] eqn:Ea; [|rewrite pfold_err in Hf; discriminate].
+    inversion Hall as [|pv l [Hin0 Hr0] Hrest]; subst. cbn [fst snd] in Hin0, Hr0.
+    assert (Hne0 : p0 <> []) by (rewrite Forall_forall in Hne; now apply Hne).
+    pose proof (get_assoc _ _ _ _ Hne0 Ea) as Hga.
+    apply (IH acc1 res Hrest); [|exact Hf].
+    intros p' a Hg.
+    destruct (path_tricho p0 p') as [Hd|[(y & t & Heq)|(s & Heq)]].
+    + rewrite (assoc_frame _ _ _ _ _ Ea Hd) in Hg. apply Hacc. exact Hg.
+    + rewrite Heq, get_in_app, Hg in Hga. cbn in Hga. discriminate.
+    + subst p'. exists p0, s. split; [exact Hin0|split; [reflexivity|]].
+      rewrite get_in_app, Hga in Hg. rewrite get_in_app, Hr0. exact Hg.
+Qed.
+
+Theorem query_exact r q res : pairwise_diverge q -> Forall (fun p => p <> []) q ->
+  query_row r q = Ok res ->
+  (forall p, In p q -> get_in res p = get_in r p) /\
+  (forall p' a, get_in res p' = Ok (Some (Lf a)) ->
+     exists p s, In p q /\ p' = p ++ s /\ get_in r p' = Ok (Some (Lf a))).
+Proof.
+  intros Hpd Hne Hq. unfold query_row in Hq.
+  destruct (query_pairs r q) as [pl|e] eqn:Ep; [|discriminate]. cbn [rbind] in Hq.
+  rewrite paths_to_dict_pfold in Hq. split.
+  - apply (query_get_gen r q pl (Nd []) res Hpd Hne Ep Hq).
+    intros p Hin. apply get_in_nil_dict. rewrite Forall_forall in Hne. now apply Hne.
+  - apply (pfold_leaves r q Hne pl (Nd []) res (query_pairs_in r q pl Ep)); [|exact Hq].
+    intros p' a Hg. destruct p'; cbn in Hg; discriminate.
+Qed.
+
+Corollary query_keeps_falsy r q res p v : pairwise_diverge q -> Forall (fun p => p <> []) q ->
+  query_row r q = Ok res -> In p q -> get_in r p = Ok (Some (Lf v)) -> get_in res p = Ok (Some (Lf v)).
+Proof.
+  intros Hpd Hne Hq Hin Hg.
+  destruct (query_exact r q res Hpd Hne Hq) as [H1 _]. rewrite (H1 p Hin). exact Hg.
+Qed.
+
+Theorem query_refuted_pinned : exists r q p res,
+  In p q /\ get_in r p = Ok (Some (Lf (LZ 0))) /\ query_row_pinned r q = Ok res /\ get_in res p = Ok None.
+Proof.
+  exists (Nd [(0%N, Lf (LZ 0))]), [[0%N]], [0%N], (Nd []).
+  split; [now left|]. repeat split.
+Qed.
+
+Print Assumptions embedded_aligned.
+Print Assumptions embedded_total.
+Print Assumptions path_ts_aligned.
+Print Assumptions cellwise_inverse.
+Print Assumptions query_exact.
+Print Assumptions query_keeps_falsy.
+Print Assumptions query_refuted_pinned.
